@@ -1,0 +1,118 @@
+//! Verification-only forwarders to the private functions of the QDLDL module.
+//! Compiled only with `--cfg oxfordcontrol_clarabel_rs_verif`.  Add-only: nothing
+//! here changes behaviour of the crate; every function forwards to the real one.
+#![allow(non_snake_case, clippy::too_many_arguments)]
+use super::*;
+
+pub fn check_structure<T: FloatT>(A: &CscMatrix<T>) -> Result<(), QDLDLError> {
+    super::check_structure(A)
+}
+
+pub fn invperm(p: &[usize]) -> Result<Vec<usize>, QDLDLError> {
+    super::_invperm(p)
+}
+
+pub fn permute<T: Copy>(x: &mut [T], b: &[T], p: &[usize]) {
+    super::permute(x, b, p)
+}
+
+pub fn ipermute<T: Copy>(x: &mut [T], b: &[T], p: &[usize]) {
+    super::ipermute(x, b, p)
+}
+
+pub fn permute_symmetric<T: FloatT>(A: &CscMatrix<T>, iperm: &[usize]) -> (CscMatrix<T>, Vec<usize>) {
+    super::permute_symmetric(A, iperm)
+}
+
+pub fn etree(
+    n: usize,
+    Ap: &[usize],
+    Ai: &[usize],
+    work: &mut [usize],
+    Lnz: &mut [usize],
+    etree: &mut [usize],
+) -> Result<usize, QDLDLError> {
+    super::_etree(n, Ap, Ai, work, Lnz, etree)
+}
+
+pub fn factor_inner<T: FloatT>(
+    n: usize,
+    Ap: &[usize],
+    Ai: &[usize],
+    Ax: &[T],
+    Lp: &mut [usize],
+    Li: &mut [usize],
+    Lx: &mut [T],
+    D: &mut [T],
+    Dinv: &mut [T],
+    Lnz: &[usize],
+    etree: &[usize],
+    bwork: &mut [bool],
+    iwork: &mut [usize],
+    fwork: &mut [T],
+    logical_factor: bool,
+    Dsigns: &[i8],
+    regularize_enable: bool,
+    regularize_eps: T,
+    regularize_delta: T,
+    regularize_count: &mut usize,
+) -> Result<usize, QDLDLError> {
+    super::_factor_inner(
+        n,
+        Ap,
+        Ai,
+        Ax,
+        Lp,
+        Li,
+        Lx,
+        D,
+        Dinv,
+        Lnz,
+        etree,
+        bwork,
+        iwork,
+        fwork,
+        logical_factor,
+        Dsigns,
+        regularize_enable,
+        regularize_eps,
+        regularize_delta,
+        regularize_count,
+    )
+}
+
+pub fn solve<T: FloatT>(Lp: &[usize], Li: &[usize], Lx: &[T], Dinv: &[T], b: &mut [T]) {
+    super::_solve(Lp, Li, Lx, Dinv, b)
+}
+
+pub fn lsolve_safe<T: FloatT>(Lp: &[usize], Li: &[usize], Lx: &[T], x: &mut [T]) {
+    super::_lsolve_safe(Lp, Li, Lx, x)
+}
+
+pub fn ltsolve_safe<T: FloatT>(Lp: &[usize], Li: &[usize], Lx: &[T], x: &mut [T]) {
+    super::_ltsolve_safe(Lp, Li, Lx, x)
+}
+
+pub fn ltsolve_unsafe<T: FloatT>(Lp: &[usize], Li: &[usize], Lx: &[T], x: &mut [T]) {
+    super::_ltsolve_unsafe(Lp, Li, Lx, x)
+}
+
+/// read-only views of the private workspace of a factorisation
+pub fn triuA<T: FloatT>(f: &QDLDLFactorisation<T>) -> &CscMatrix<T> {
+    &f.workspace.triuA
+}
+pub fn AtoPAPt<T: FloatT>(f: &QDLDLFactorisation<T>) -> &[usize] {
+    &f.workspace.AtoPAPt
+}
+pub fn Dsigns<T: FloatT>(f: &QDLDLFactorisation<T>) -> &[i8] {
+    &f.workspace.Dsigns
+}
+pub fn iperm<T: FloatT>(f: &QDLDLFactorisation<T>) -> &[usize] {
+    &f.iperm
+}
+pub fn etree_of<T: FloatT>(f: &QDLDLFactorisation<T>) -> &[usize] {
+    &f.workspace.etree
+}
+pub fn Lnz_of<T: FloatT>(f: &QDLDLFactorisation<T>) -> &[usize] {
+    &f.workspace.Lnz
+}
